@@ -9,7 +9,8 @@ white space.  Other (valid) directives are `unsupported` by the model.
 escaped, white-space runs → `\s+`, directives → named groups, IGNORECASE),
 takes the *first* match in backtracking order and then demands that it consumed
 the whole string.  The matcher below enumerates matches in that order.
-`strftime` is glibc's: `%Y` is *not* zero padded, the two-digit fields are.
+`strftime` is glibc's, whose `%Y` is not zero padded; `DateTimeBase.serialize` substitutes the
+four-digit year for `%Y` itself when the year is below 1000, so `%Y` is modelled as zero padded.
 -/
 import XsdataModel.Conv.Basic
 import XsdataModel.Lex.Dates
@@ -195,7 +196,7 @@ def strftime (v : PyDT) : Str → PR Str
   | '%' :: d :: rest =>
     let field : Option Str :=
       if d = '%' then some ['%']
-      else if d = 'Y' then some (intStr v.year)
+      else if d = 'Y' then some (zpadInt v.year 4)   -- `DateTimeBase.serialize` pads years below 1000 itself
       else if d = 'm' then some (zpadInt v.month 2)
       else if d = 'd' then some (zpadInt v.day 2)
       else if d = 'H' then some (zpadInt v.hour 2)
